@@ -42,6 +42,8 @@ Inductive ext := XAes | XSha.
 Inductive instr :=
 | IAlu (op : aluop) (d : dst) (s : src)   (* 32-bit; at most one memory operand; a memory
                                              destination only with mov/cmp/test *)
+| IAlu8 (op : aluop) (d : reg) (s : src)  (* test/cmp on the LOW byte of d (al, cl, ..., r15b) against an
+                                             imm8 or the low byte of a register; flags only *)
 | IMov64 (d s : reg)                      (* mov r64, r64 *)
 | ICmpxchg (locked : bool) (s : reg)      (* [status] vs eax; new value in s (32-bit) *)
 | IXchg (s : reg)                         (* xchg [status], r32: atomic swap (implicitly locked) *)
@@ -127,6 +129,16 @@ Definition alu (op : aluop) (a b : N) : N * (bool * bool * bool * bool) :=
             (r, (r =? 0, a <? b, bit31 r, xorb (bit31 a) (bit31 b) && xorb (bit31 a) (bit31 r)))
   end.
 
+(* flags of an 8-bit test / cmp (a, b < 2^8) *)
+Definition bit7 (x : N) : bool := N.testbit x 7.
+Definition alu8 (op : aluop) (a b : N) : option (bool * bool * bool * bool) :=
+  match op with
+  | OTest => let r := N.land a b in Some (r =? 0, false, bit7 r, false)
+  | OCmp => let r := (a + 256 - b) mod 256 in
+            Some (r =? 0, a <? b, bit7 r, xorb (bit7 a) (bit7 b) && xorb (bit7 a) (bit7 r))
+  | _ => None
+  end.
+
 Definition caller_saved : list reg := [RCX; RDX; RSI; RDI; R8; R9; R10; R11].
 Definition clobber (t : tstate) : tstate := fold_left (fun t r => setr t r JUNK) caller_saved t.
 
@@ -146,6 +158,15 @@ Definition istep (o : N * N) (i : instr) (g : gst) (t : tstate) : gst * tstate :
       | _, DReg rd => (g, next (setr t1 rd r))
       | OMov, DMem => (set_status g r, next t1)
       | _, DMem => (g, fault t)
+      end
+  | IAlu8 op d s =>
+      let a := N.land (getr t d) 255 in
+      match (match s with SReg r => Some (N.land (getr t r) 255) | SImm n => Some (N.land n 255) | SMem => None end) with
+      | Some b => match alu8 op a b with
+                  | Some (z, c, s', o') => (g, next (set_flags t z c s' o'))
+                  | None => (g, fault t)
+                  end
+      | None => (g, fault t)
       end
   | IMov64 d s => (g, next (setr t d (getr t s)))
   | ICmpxchg true s =>
@@ -280,31 +301,57 @@ Definition gst_eqb (a b : gst) : bool :=
    bodies' return values (from the clang AST): which values can _aes_self_tests / _sha_self_tests
    hand to isal_self_tests *)
 
+(* a return expression, as far as its VALUE SET matters *)
+Inductive rexp :=
+| ELit (n : N)                       (* integer literal (32-bit two's complement) *)
+| EBool                              (* result of a comparison or of a logical operator: 0 or 1 *)
+| ECall (f : nat)                    (* result of calling function number f of the table *)
+| EOr (a b : rexp)                   (* a | b *)
+| ECond (a b : rexp)                 (* c ? a : b *)
+| EVar (inits ors : list rexp)       (* a local variable: assigned one of `inits` (v = e, initialiser),
+                                        then any number of v |= e with e among `ors` *)
+| EUnknown.
+
 Inductive retshape :=
-| RLits (l : list N)               (* every return statement returns one of these literals (as 32-bit words) *)
-| ROrCalls (fs : list nat)         (* returns the bitwise OR of the results of these functions (indices) *)
+| RExps (l : list rexp)              (* the function returns one of these expressions *)
 | RUnknown.
 
-Fixpoint or_all (ls : list (list N)) : list N :=
-  match ls with
-  | [] => [0]
-  | l :: r => flat_map (fun x => map (fun y => N.lor x y) (or_all r)) l
-  end.
+Definition opt_union (l : list (option (list N))) : option (list N) :=
+  fold_right (fun x acc => match x, acc with Some a, Some b => Some (nodup N.eq_dec (a ++ b)) | _, _ => None end) (Some []) l.
+Definition or_sets (a b : list N) : list N := nodup N.eq_dec (flat_map (fun x => map (fun y => N.lor x y) b) a).
 
-Fixpoint ret_values (fuel : nat) (tab : list retshape) (f : nat) : option (list N) :=
+Fixpoint rexp_vals (fuel : nat) (tab : list retshape) (e : rexp) : option (list N) :=
   match fuel with
   | O => None
   | S k =>
-      match nth_error tab f with
-      | Some (RLits l) => Some (map w32 l)
-      | Some (ROrCalls fs) =>
-          let rs := map (ret_values k tab) fs in
-          if forallb (fun r => match r with Some _ => true | None => false end) rs
-          then Some (nodup N.eq_dec (or_all (map (fun r => match r with Some l => l | None => [] end) rs)))
-          else None
-      | _ => None
+      match e with
+      | ELit n => Some [w32 n]
+      | EBool => Some [0; 1]
+      | ECall f => match nth_error tab f with
+                   | Some (RExps l) => match l with [] => None | _ => opt_union (map (rexp_vals k tab) l) end
+                   | _ => None
+                   end
+      | EOr a b => match rexp_vals k tab a, rexp_vals k tab b with
+                   | Some x, Some y => Some (or_sets x y)
+                   | _, _ => None
+                   end
+      | ECond a b => opt_union [rexp_vals k tab a; rexp_vals k tab b]
+      | EVar inits ors =>
+          match inits with
+          | [] => None
+          | _ => match opt_union (map (rexp_vals k tab) inits), opt_union (map (rexp_vals k tab) ors) with
+                 | Some i, Some o =>
+                     (* closure under x |-> x | y, y in o: |o| + 1 rounds suffice (OR is idempotent) *)
+                     Some (fold_left (fun acc _ => nodup N.eq_dec (acc ++ or_sets acc o)) o i)
+                 | _, _ => None
+                 end
+          end
+      | EUnknown => None
       end
   end.
+
+Definition ret_values (fuel : nat) (tab : list retshape) (f : nat) : option (list N) :=
+  rexp_vals fuel tab (ECall f).
 
 Definition boolean_verdicts (vs : option (list N)) : bool :=
   match vs with
